@@ -52,7 +52,8 @@ fn decode(u: &mut Unstructured<'_>) -> arbitrary::Result<CoreCase> {
         muts.push(Mutn { kind: u.int_in_range(0..=31u8)?, a: u.arbitrary()?, b: u.arbitrary()?, r: u.arbitrary()? });
     }
     let root_mode = *u.choose(&[0u8, 0, 0, 0, 0, 0, 1, 2, 2, 2])?;
-    Ok(CoreCase { salt, sha2, keys, queries, ops, muts, root_mode })
+    let tail_label = salt % 7 == 0;
+    Ok(CoreCase { salt, sha2, tail_label, keys, queries, ops, muts, root_mode })
 }
 
 fn report(id: &str, case: &CoreCase, msg: &str) -> ! {
